@@ -137,7 +137,7 @@ def run_plane(case, agg):
                 if via_main:
                     from .. import impl
                     impl.prefill(out)
-                    f1, f2 = os.path.join(d, "p1.bin"), os.path.join(d, "p2.bin")
+                    f1, f2 = os.path.join(d, impl.odd_name("p1", "bin", key)), os.path.join(d, impl.odd_name("p2", "bin", key))
                     open(f1, "wb").write(p1)
                     open(f2, "wb").write(p2)
                     cc.main(cache_create_subcommand="from_payloads", output_file=out, eb_size=eb,
@@ -446,7 +446,8 @@ def run_uris(case, agg):
         out = os.path.join(d, "c.bin")
         args = []
         for i, (u, p) in enumerate(pairs):
-            f = os.path.join(d, f"p{i}.bin")
+            from .. import impl
+            f = os.path.join(d, impl.odd_name(f"p{i}", "bin", u))
             open(f, "wb").write(p)
             args.append(f"{u},{f}")
         try:
